@@ -13,12 +13,13 @@ CLAUSES = {
     "nctime": "nctime()/step2nctime(n, unit) == (time - reference)/unit for s, m, h",
     "cf-units": "cf_units(unit) names the unit and the reference time",
     "reject": "missing start/stop/dt and stop on the wrong side of start end in SystemExit",
+    "output-time": "the time coordinate of every output record is (record's model time - reference) in the unit named by its units attribute, whatever start, reference, period, direction and skip_initial",
     "period-spellings": "int seconds, timedelta64, datetime.timedelta, [v, unit] and ISO PTxHyMzS denote the same duration",
     "period-malformed": "malformed period spellings raise ValueError",
     "iso-roundtrip": "normalize_period(duration2iso(d)) == d below one day; day-long durations are rejected, not mis-parsed",
 }
 BOUNDS = {
-    "quick": "start/stop/reference: any integer seconds with |t| <= 1e10; step n: any integer |n| <= 1e6; dt in {1, 7, 60, 3600} s; period values: any integer 0..1e6",
+    "quick": "(output-time: Nsteps 1..4, period 1..2 steps, skip_initial symbolic, dt 60/3600, start/reference unbounded) start/stop/reference: any integer seconds with |t| <= 1e10; step n: any integer |n| <= 1e6; dt in {1, 7, 60, 3600} s; period values: any integer 0..1e6",
     "thorough": "as quick plus dt in {2, 3, 5, 11, 13, 86400, 100000} and a symbolic dt in 1..12",
 }
 ASSUMES = ["times within +-1e10 s of the epoch (datetime64[s] range used in practice)"]
@@ -36,6 +37,9 @@ def scenarios(tier):
     if tier != "quick":
         for rev in (False, True):
             out.append(dict(name=f"clock-dtsym-{'rev' if rev else 'fwd'}", fn="clock", params=dict(dt="sym", rev=rev), cost=20))
+    for dt in (60, 3600):
+        for rev in (False, True):
+            out.append(dict(name=f"outtime-dt{dt}-{'rev' if rev else 'fwd'}", fn="outtime", params=dict(dt=dt, rev=rev), cost=8))
     out.append(dict(name="reject", fn="reject", params={}, cost=1))
     out.append(dict(name="periods", fn="periods", params={}, cost=3))
     for shape in ("H", "M", "S", "HM", "HS", "MS", "HMS"):
@@ -92,6 +96,47 @@ def clock(W, p):
         W.prove(name == dict(s="seconds", m="minutes", h="hours")[unit] and W.truth(W.eq(W.sec_of(_parse_time(W, reft)), ref)), "cf-units")
     W.prove(W.eq(timer.step2nctime(n), start + sgn * n * dt - ref), "nctime")
     return ("clock", dt, rev)
+
+
+def outtime(W, p):
+    """time coordinate of output files: real TimeKeeper + State + Output driven as the main loop drives them"""
+    from harness.common import ovar
+
+    tk, st, out = W.load("ladim.timekeeper"), W.load("ladim.state"), W.load("ladim.out_netcdf")
+    dt, rev = p["dt"], p["rev"]
+    sgn = -1 if rev else 1
+    N = W.idx(W.int("Nsteps", 1, 4))
+    P = W.idx(W.int("period", 1, 2))
+    skip = W.truth(W.bool("skip_initial"))
+    start = W.int("start", -BIG, BIG)
+    ref = W.int("ref", -BIG, BIG)
+    extra = W.int("extra", 0, dt - 1)  # neither the duration nor the output period need be a whole number of steps
+    stop = start + sgn * (N * dt + extra)
+    W.assume(W.all([W.not_(W.eq(start, 0)), W.not_(W.eq(stop, 0)), W.not_(W.eq(ref, 0))]), "start/stop/reference are not exactly 1970-01-01T00:00:00 (numpy's datetime64(0) is falsy and is taken as 'missing')")
+    timer = tk.TimeKeeper(start=W.dt(start), stop=W.dt(stop), dt=dt, reference=W.dt(ref), time_reversal=rev)
+    S = st.State()
+    S.append(X=1, Y=1, Z=1)
+    tmp = W.scratch()
+
+    class Grid:
+        pass
+
+    O = out.Output(dict(time=timer, state=S, grid=Grid()), filename=str(tmp / "o.nc"), output_period=P * dt + W.int("period_extra", 0, dt - 1), instance_variables=dict(pid=ovar("i4")), skip_initial=skip)
+    for _ in range(N):
+        timer.update()
+        O.update()
+    O.close()
+    d = W.nc_read(tmp / "o.nc")
+    steps = [k * P for k in range(N) if k * P < N and not (skip and k == 0)]
+    t = d["vars"]["time"]
+    info = dict(N=N, P=P, skip_initial=skip, dt=dt, rev=rev)
+    if len(t) != len(steps) or any(W.is_fill(x) for x in t):
+        W.prove(False, "output-time", dict(info, records=len(t), expected=len(steps)))
+        return ("outtime", "len")
+    name, _, reft = d["atts"]["time"]["units"].partition(" since ")
+    W.prove(name == "seconds" and W.truth(W.eq(W.sec_of(_parse_time(W, reft)), ref)), "output-time", dict(info, units=str(d["atts"]["time"]["units"])[:60]))
+    W.prove(W.all([W.eq(x, start + sgn * s_ * dt - ref) for x, s_ in zip(t, steps)]), "output-time", info)
+    return ("outtime", N, P, skip)
 
 
 def _parse_time(W, s):
